@@ -32,6 +32,8 @@ pub mod glue;
 pub mod term;
 #[path = "c15_proof.rs"]
 pub mod proof;
+#[path = "c15_jsonmap.rs"]
+pub mod jsonmap;
 #[path = "c15_view.rs"]
 pub mod view;
 
@@ -1183,6 +1185,11 @@ fn run_json(opts: &Opts, out: &mut Out) {
         for _ in 0..4 {
             json_block_case(out, &t, &mut rng);
         }
+        if r < 20 || r % 5 == 0 {
+            for n in jsonmap::TYPES {
+                jsonmap::jm_op(out, &t, &mut rng, n);
+            }
+        }
         // keep the line protocol non-empty for every case
         let n = rng.next() & 0xffff_ffff;
         out.op(&format!("ju 32 {}", n), &format!("0x{:x}", json::Uint32::from(n as u32).value()));
@@ -1457,6 +1464,11 @@ fn replay(opts: &Opts, out: &mut Out, path: &std::path::Path) {
                 });
             }
             "cbmt" | "vblk" | "vpath" => view::replay_line(out, &ts),
+            "jm" => {
+                let t = Table::new();
+                let mut rng = Rng::new(0x6a6d);
+                jsonmap::jm_op(out, &t, &mut rng, ts[2]);
+            }
             "mpg" | "mrg" | "mlg" | "mpb" | "txv" | "ssz" => {
                 proof::replay_line(out, &ts);
             }
